@@ -1013,6 +1013,12 @@ def parse_tree_to_objgraph(
 
                 for m in models:
                     assert not m._tx_reference_resolver.parser._inst_stack
+                    # References are collected as they resolve. Postponed ones
+                    # come late: restore the order by position (in place, the
+                    # list is shared with the model).
+                    m._tx_reference_resolver.pos_crossref_list.sort(
+                        key=lambda x: x.ref_pos_start
+                    )
 
                 # cleanup
                 for m in models:
